@@ -34,12 +34,9 @@ DELETE_OWNERS = {
     "TRASH_ROOT": {"lsmtk::verifier::LsmVerifier::possibly_complete_processing"},
     "TRASH_SST": {"lsmtk::verifier::LsmVerifier::possibly_complete_processing"},
     "TRASH_LOG": {"lsmtk::verifier::LsmVerifier::possibly_complete_processing"},
-    "TEMP_FILE": {"lsmtk::kvs::KeyValueStore::_memtable_thread", "lsmtk::kvs::KeyValueStore::recover_one"},
-    "TEMP_ROOT": {"lsmtk::kvs::KeyValueStore::_memtable_thread", "lsmtk::kvs::KeyValueStore::recover_one"},
-    "COMPACTION_DIR": {"lsmtk::tree::LsmTree::compaction_setup"},
-    "COMPACTION_ROOT": {"lsmtk::tree::LsmTree::compaction_setup"},
-    "TEMPORARY": {"mani::Manifest::rollover"},
 }
+# tmp/, compaction/ staging and MANIFEST.tmp hold nothing that is needed once their owner is done: any function may
+# clean them (no owner table, so adding e.g. a stale-temp sweep on open raises no alarm)
 
 DEL = r"^std::fs::(remove_file|remove_dir|remove_dir_all)$"
 REN = r"^std::fs::rename$"
@@ -111,7 +108,7 @@ def c081(ctx):
                 owners = set()
                 for c in cls:
                     owners |= DELETE_OWNERS.get(c, set())
-                ctx.check(R, f, "%s(%s)" % (op, "|".join(sorted(cls))), f.skey in owners,
+                ctx.check(R, f, "%s(%s)" % (op, "|".join(sorted(cls))), (f.skey in owners) or not (cls & set(DELETE_OWNERS)),
                           "%s of a %s path by its owner %s" % (op, sorted(cls), f.skey),
                           "%s deletes a %s path; only %s may (trash/ is emptied only by the verifier's intent-logged pass, "
                           "staging areas only by the thread that owns them)" % (f.skey, sorted(cls), sorted(owners)), pt=pt)
